@@ -106,15 +106,17 @@ def run(ctx, res):
     done = 0
     for r in _design.analysed(batch):
         _design.count(res, r)
-        if "oracle" not in r or done >= (18 if ctx.quick else 400):
+        is_gen = r["name"].startswith("gen-")
+        # every hand-written corpus program is checked; generated ones up to a budget
+        if "oracle" not in r or (is_gen and done >= (18 if ctx.quick else 400)):
             continue
         mult = collections.Counter()
         for k, m in zip(r["oracle"], r["oracle_mult"]):
             mult[k] += m
         N = sum(mult.values())
-        if N == 0 or N > (320 if not r["name"].startswith("gen-") else 120):
+        if N == 0 or N > (320 if not is_gen else 120):
             continue
-        done += 1
+        done += is_gen
         _design.sample_case(res, r, {"available": N})
         for strat in STRATS:
             for n in sorted(set([0, 1, max(N - 1, 0), N, N + 1, 3 * N])):
@@ -130,7 +132,7 @@ def run(ctx, res):
                             m2[k] += m
                         N2 = sum(m2.values())
                         return any(check(p, m2, rr["names"], strat, q) is not None for q in (1, N2, N2 + 1))
-                    _design.report(res, "count:%s:%s" % (strat, "short" if bad.get("returned", 0) < min(n, N) else "dup"),
+                    _design.report(res, "count:%s:%s" % (strat, "dup" if "repeated" in bad or bad.get("returned", 0) > min(n, N) else "short"),
                                    r, still, "%s: %r" % (strat, bad), bad)
                     break
 
